@@ -23,7 +23,7 @@ ASSUMPTIONS = ["bytes of the fields emitted so far = sum of declared widths of t
                "reference reader of sim/medium.py); files: bytes read <= that bound rounded up to the read boundary"]
 # run_timeout: run 0 of every batch decodes a capture of more than 2 MiB (quick) / 4 and 8 MiB (thorough, runs 0 and 1) - one to
 # several minutes of CPU time in this pure-Python decoder, in a worker process of its own (SOLO) next to the other runs
-TIERS = {"quick": {"runs": 12000, "budget": 75, "run_timeout": 600}, "thorough": {"runs": 300000, "budget": 780, "run_timeout": 1800}}
+TIERS = {"quick": {"runs": 12000, "budget": 150, "run_timeout": 600}, "thorough": {"runs": 300000, "budget": 780, "run_timeout": 1800}}
 MEGA = {"quick": {0: (1 << 21)}, "thorough": {0: (1 << 22), 1: (1 << 23)}}
 SOLO = {t: set(v) for t, v in MEGA.items()}       # these runs get a worker process of their own (sim/runner.py)
 OTHER_KINDS = ("bytes", "bytearray", "list", "tuple", "memoryview", "array", "iter", "gen", "byteobjs", "realfile")
